@@ -148,3 +148,122 @@ fn k9_get_bits_slice() {
     kani::cover!(len == 64 && index == 128);
     kani::cover!(len == 64 && index == 1);
 }
+
+// ---- K11: bit-vector iterators over a 1-line vector (bounded in size), symbolic cursor -------------
+fn any_bv1() -> BitVector {
+    let line = DataLine { words: kani::any() };
+    let n_bits: usize = kani::any();
+    kani::assume(n_bits <= 512);
+    BitVector { data: vec![line].into_boxed_slice(), n_bits, n_ones: 0 }
+}
+
+/// BitVectorIter::next / len for every cursor (including past the end)
+#[kani::proof]
+fn k11_bitvector_iter() {
+    let bv = any_bv1();
+    let i0: usize = kani::any();
+    let mut it = bv.iter();
+    it.i = i0;
+    let r = it.next();
+    if i0 < bv.n_bits {
+        assert!(r == Some(bit(&bv.data[0], i0)));
+        assert!(it.i == i0 + 1);
+        assert!(it.len() == bv.n_bits - i0 - 1);
+    } else {
+        assert!(r.is_none());
+        assert!(it.i == i0);
+        kani::cover!(i0 == usize::MAX);
+    }
+    kani::cover!(i0 == 511 && bv.n_bits == 512);
+}
+
+/// BitVectorIntoIter::next / len: never moves past the end, len() is 0 after exhaustion
+#[kani::proof]
+fn k11_bitvector_into_iter() {
+    let bv = any_bv1();
+    let n = bv.n_bits;
+    let line = bv.data[0];
+    let i0: usize = kani::any();
+    kani::assume(i0 <= n); // invariant: starts at 0, next() keeps i <= n_bits
+    let mut it = bv.into_iter();
+    it.i = i0;
+    let r = it.next();
+    if i0 < n {
+        assert!(r == Some(bit(&line, i0)));
+        assert!(it.i == i0 + 1);
+        assert!(it.len() == n - i0 - 1);
+    } else {
+        assert!(r.is_none());
+        assert!(it.i == i0);
+        assert!(it.len() == 0);
+        assert!(it.next().is_none());
+        assert!(it.len() == 0);
+    }
+    assert!(it.i <= n);
+    kani::cover!(i0 == n && n == 512);
+}
+
+/// position iterators: `with_pos(pos).next()` on 3 symbolic words = the first position >= pos that holds
+/// BIT and is < n_bits, None otherwise; and None is sticky
+fn first_from(d: &[u64; 3], n_bits: usize, pos: usize, want: bool) -> Option<usize> {
+    let mut w = 0;
+    while w < 3 {
+        let word = if want { d[w] } else { !d[w] };
+        let lo = w * 64;
+        let masked = if pos >= lo + 64 { 0 } else if pos <= lo { word } else { word & (u64::MAX << (pos - lo)) };
+        if masked != 0 {
+            let p = lo + masked.trailing_zeros() as usize;
+            return if p < n_bits { Some(p) } else { None };
+        }
+        w += 1;
+    }
+    None
+}
+
+#[kani::proof]
+#[kani::unwind(5)]
+fn k11_positions_ones() {
+    let d: [u64; 3] = kani::any();
+    let n_bits: usize = kani::any();
+    kani::assume(n_bits <= 192);
+    let pos: usize = kani::any();
+    kani::assume(pos <= 200);
+    let mut it = BitVectorBitPositionsIter::<true>::with_pos(&d, n_bits, pos);
+    let r = it.next();
+    assert!(r == first_from(&d, n_bits, pos, true));
+    if r.is_none() { assert!(it.next().is_none()); }
+    kani::cover!(r == Some(191));
+    kani::cover!(r.is_none() && pos < n_bits);
+}
+
+#[kani::proof]
+#[kani::unwind(5)]
+fn k11_positions_zeros() {
+    let d: [u64; 3] = kani::any();
+    let n_bits: usize = kani::any();
+    kani::assume(n_bits <= 192);
+    let pos: usize = kani::any();
+    kani::assume(pos <= 200);
+    let mut it = BitVectorBitPositionsIter::<false>::with_pos(&d, n_bits, pos);
+    let r = it.next();
+    assert!(r == first_from(&d, n_bits, pos, false));
+    if r.is_none() { assert!(it.next().is_none()); }
+    kani::cover!(r == Some(130));
+}
+
+/// two consecutive next() calls from the start: the second result is the first position after the first
+#[kani::proof]
+#[kani::unwind(5)]
+fn k11_positions_step() {
+    let d: [u64; 3] = kani::any();
+    let n_bits: usize = kani::any();
+    kani::assume(n_bits <= 192);
+    let mut it = BitVectorBitPositionsIter::<true>::new(&d, n_bits);
+    let a = it.next();
+    assert!(a == first_from(&d, n_bits, 0, true));
+    if let Some(p) = a {
+        let b = it.next();
+        assert!(b == first_from(&d, n_bits, p + 1, true));
+        kani::cover!(b == Some(p + 64));
+    }
+}
